@@ -8,8 +8,8 @@
 use crate::common::*;
 use crate::json::J;
 use crate::vals::{Storage, Val};
-use cachelito_core::{AsyncGlobalCache, GlobalCache, ThreadLocalCache};
-use std::collections::{BTreeMap, BTreeSet, HashMap, HashSet};
+use cachelito_core::{AsyncGlobalCache, CacheEntry, GlobalCache, ThreadLocalCache};
+use std::collections::{BTreeMap, BTreeSet, HashMap, HashSet, VecDeque};
 use std::panic::{catch_unwind, AssertUnwindSafe};
 
 pub const NS: u64 = 1_000_000_000;
@@ -110,6 +110,12 @@ pub struct Snap {
     pub misses: u64,
 }
 
+/// A physical copy of a subject's (harness-owned) storage: continuations can be run from one state many times.
+pub enum Saved<V: Val> {
+    Sync(HashMap<String, CacheEntry<V>>, VecDeque<String>),
+    Async(Vec<(String, (V, u64, u64))>, VecDeque<String>),
+}
+
 pub trait Subject<V: Val> {
     fn get(&self, k: &str) -> Option<V>;
     fn put(&self, k: &str, v: V);
@@ -117,6 +123,10 @@ pub trait Subject<V: Val> {
     fn reset(&self);
     /// `GlobalCache::clear` (the only engine with a public clear)
     fn clear(&self) {}
+    fn save(&self) -> Saved<V>;
+    fn restore(&self, s: &Saved<V>);
+    /// remove these keys from store and queue, as if they had been invalidated
+    fn forget(&self, keys: &[String]);
 }
 
 struct GlobalSubj<V: Val> {
@@ -163,6 +173,23 @@ impl<V: Val> Subject<V> for GlobalSubj<V> {
     fn clear(&self) {
         self.c.clear()
     }
+    fn save(&self) -> Saved<V> {
+        Saved::Sync(self.st.g_map.read().clone(), self.st.g_order.lock().clone())
+    }
+    fn restore(&self, s: &Saved<V>) {
+        if let Saved::Sync(m, o) = s {
+            *self.st.g_map.write() = m.clone();
+            *self.st.g_order.lock() = o.clone();
+        }
+    }
+    fn forget(&self, keys: &[String]) {
+        let mut m = self.st.g_map.write();
+        for k in keys {
+            m.remove(k);
+        }
+        drop(m);
+        self.st.g_order.lock().retain(|k| !keys.contains(k));
+    }
 }
 
 struct ThreadSubj<V: Val> {
@@ -207,6 +234,24 @@ impl<V: Val> Subject<V> for ThreadSubj<V> {
         self.st.tl_order.with(|o| o.borrow_mut().clear());
         self.c.stats().reset();
     }
+    fn save(&self) -> Saved<V> {
+        Saved::Sync(self.st.tl_map.with(|m| m.borrow().clone()), self.st.tl_order.with(|o| o.borrow().clone()))
+    }
+    fn restore(&self, s: &Saved<V>) {
+        if let Saved::Sync(m, o) = s {
+            self.st.tl_map.with(|x| *x.borrow_mut() = m.clone());
+            self.st.tl_order.with(|x| *x.borrow_mut() = o.clone());
+        }
+    }
+    fn forget(&self, keys: &[String]) {
+        self.st.tl_map.with(|m| {
+            let mut m = m.borrow_mut();
+            for k in keys {
+                m.remove(k);
+            }
+        });
+        self.st.tl_order.with(|o| o.borrow_mut().retain(|k| !keys.contains(k)));
+    }
 }
 
 struct AsyncSubj<V: Val> {
@@ -246,6 +291,24 @@ impl<V: Val> Subject<V> for AsyncSubj<V> {
         self.st.a_map.clear();
         self.st.a_order.lock().clear();
         self.st.a_stats.reset();
+    }
+    fn save(&self) -> Saved<V> {
+        Saved::Async(self.st.a_map.iter().map(|e| (e.key().clone(), e.value().clone())).collect(), self.st.a_order.lock().clone())
+    }
+    fn restore(&self, s: &Saved<V>) {
+        if let Saved::Async(m, o) = s {
+            self.st.a_map.clear();
+            for (k, v) in m {
+                self.st.a_map.insert(k.clone(), v.clone());
+            }
+            *self.st.a_order.lock() = o.clone();
+        }
+    }
+    fn forget(&self, keys: &[String]) {
+        for k in keys {
+            self.st.a_map.remove(k);
+        }
+        self.st.a_order.lock().retain(|k| !keys.contains(k));
     }
 }
 
@@ -516,6 +579,14 @@ impl<V: Val> Runner<V> {
                     obs.removed.push(*gone);
                     if *gone != k {
                         obs.findings.push(Finding { property: "C04", monitor: "lookup-removed-other", detail: format!("get k{k} removed k{gone}") });
+                        // an entry younger than its ttl went without eviction or invalidation: that is the ttl clause too
+                        if let (Some(t), Some(g)) = (cfg.ttl, self.ghost.get(gone)) {
+                            let age = self.now_ns - g.born_ns;
+                            let young = if self.is_async() { age + NS < t * NS } else { age < t * NS };
+                            if young {
+                                obs.findings.push(Finding { property: "C06", monitor: "purge-removed-unexpired-entry", detail: format!("get k{k} removed k{gone}, which is {:.1}s old (ttl {t})", age as f64 / NS as f64) });
+                            }
+                        }
                     }
                 }
                 for extra in post_keys.difference(&pre) {
@@ -1010,8 +1081,10 @@ fn spec_for<V: Val>(property: &str, thorough: bool, cfg: Config, mp: &MemPlan) -
     if has_ttl && cfg.flavour == Flavour::Async {
         depth += 2; // half-second ticks: twice as many steps to reach the same ages
     }
-    if property == "C06" && thorough {
-        depth += 1;
+    if property == "C06" {
+        // store, age, store, use, age, lookup, lookup: seven steps before a purge that takes a younger neighbour
+        // with it shows (seed S74)
+        depth += if thorough { 1 } else { 2 };
     }
     if has_mem && thorough {
         depth = 6;
